@@ -37,6 +37,18 @@ theorem failed_facts (cfg : Cfg) (s : State) (u : User) :
     (failedSess s u).id = s.next ∧ (failedSess s u).owner = u ∧ EOk cfg s.now 0 0 (failedSess s u) ∧ (failedSess s u).removed = true := by
   refine ⟨rfl, rfl, ⟨⟨?_, ?_, ?_, ?_, ?_, ?_, ?_, ?_, ?_⟩, ?_⟩, rfl⟩ <;> simp [failedSess]
 
+/-- a session that has just been created has no POST whose body is still on its way -/
+theorem created_upl (s : State) (T : Nat) (u : User) (k : Kind) (ok : Bool) (cf : Bool) :
+    (createdE s.now T cf (newSess s u k) k ok).upl = 0 := by
+  by_cases hT : T = 0 <;> cases k <;> cases ok <;>
+    simp [createdE, newSess, publishF, publishedSess, deliver, hdK, tryF, handlerDoneF, endPost, settleE, timerFireF,
+      closeDoneF, hT] <;> (repeat' split) <;> rfl
+
+theorem racy_upl (s : State) (T : Nat) (u : User) (k : Kind) (ok : Bool) (cf : Bool) :
+    (racyE s.now T cf (newSess s u k) ok).upl = 0 := by
+  by_cases hT : T = 0 <;> cases ok <;>
+    simp [racyE, newSess, publishF, closeF, tryF, endPost, settleE, timerFireF, closeDoneF, hT] <;> (repeat' split) <;> rfl
+
 /-! ### the table with one new entry -/
 
 def withNew (s : State) (x : Sess) : State := { s with tbl := s.tbl ++ [x], next := s.next + 1 }
